@@ -9,5 +9,6 @@ func init() {
 			"which well-formed headers must be accepted is not asserted (only what comes out of an accepted header is judged); members valid by the W3C level-1 ABNF handed to Insert / ParseTraceState without optional white space must be accepted",
 			"optional blanks/tabs around a traceparent value and empty tracestate list-members are not counted as malformed; empty list-members do not count towards the limit of 32",
 			"of the trace flags only the sampled bit is compared across a round trip; re-injected flags must be 00 or 01",
+			"which entry of a pre-filled carrier is the traceparent / tracestate header follows the storage type's documented addressing (http.Header: canonical MIME key, first field line; map: exact key); a reachable stale tracestate that survives Inject of a span context without tracestate is not judged (TextMapCarrier has no delete)",
 		))
 }
